@@ -208,6 +208,8 @@ func (h *Hook) OnDisconnect(cl *mqtt.Client, _ error, expire bool) {
 		return
 	}
 
+	h.updateClient(cl) // persist what the disconnect changed (session expiry, will), like the badger and pebble hooks
+
 	if !expire {
 		return
 	}
